@@ -203,10 +203,21 @@ impl Entry {
                 (Datum::ByteArray(l), Datum::ByteArray(r)) => l == r,
                 (Datum::Collection(l), Datum::Collection(r)) => {
                     l.len() == r.len()
-                        && l.iter()
-                            .zip(r.iter())
-                            .all(|(l, r)| equiv_data(&l.value, &r.value))
+                        && l.iter().zip(r.iter()).all(|(l, r)| {
+                            equiv_data(&l.value, &r.value) && equiv_padding(&l.padding, &r.padding)
+                        })
                 }
+                _ => false,
+            }
+        }
+
+        // The same values can be laid out differently. E.g., the elements of a `[bool; 2]`
+        // take one byte each, while the fields of a `struct { x: bool, y: bool }` are
+        // padded to one word each. Entries with different layouts must not be merged.
+        fn equiv_padding(lhs: &Padding, rhs: &Padding) -> bool {
+            match (lhs, rhs) {
+                (Padding::Left { target_size: l }, Padding::Left { target_size: r }) => l == r,
+                (Padding::Right { target_size: l }, Padding::Right { target_size: r }) => l == r,
                 _ => false,
             }
         }
@@ -215,7 +226,9 @@ impl Entry {
         // available (i.e. `Some(..)`) and they must be the same before we can merge the two
         // entries. Otherwise, `self.name` and `entry.name` will be `None` in which case we're also
         // allowed to merge the two entries (if their values are equivalent of course).
-        equiv_data(&self.value, &entry.value) && self.name == entry.name
+        equiv_data(&self.value, &entry.value)
+            && equiv_padding(&self.padding, &entry.padding)
+            && self.name == entry.name
     }
 }
 
